@@ -54,10 +54,11 @@ struct Printer {
     sym_list: Vec<String>,
     /// plain: literals are written out (used for the byte-level comparisons of the oracle)
     plain: bool,
+    case_id: usize,
 }
 impl Printer {
     fn new(plain: bool) -> Self {
-        Printer { generic: HashMap::new(), syms: HashMap::new(), sym_list: vec![], plain }
+        Printer { generic: HashMap::new(), syms: HashMap::new(), sym_list: vec![], plain, case_id: 0 }
     }
     /// A u64 as a Coq N: small ones literally, big ones through the case's symbol table.
     fn num(&mut self, v: u64) -> String {
@@ -72,17 +73,18 @@ impl Printer {
         if k == n {
             self.sym_list.push(lit);
         }
-        format!("a{}", k)
+        format!("a{}_{}", self.case_id, k)
     }
-    /// Wraps the body of a case in the bindings of its big literals and resets the table.
-    fn close_case(&mut self, body: String) -> String {
-        let mut s = String::with_capacity(body.len() + self.sym_list.len() * 32);
+    /// Ends a case: returns the definitions of its big literals (to be emitted before the case)
+    /// and resets the table.
+    fn close_case(&mut self) -> String {
+        let mut s = String::with_capacity(self.sym_list.len() * 40);
         for (k, lit) in self.sym_list.iter().enumerate() {
-            s.push_str(&format!("let a{} := {} in\n ", k, lit));
+            s.push_str(&format!("Definition a{}_{} := {}.\n", self.case_id, k, lit));
         }
-        s.push_str(&body);
         self.syms.clear();
         self.sym_list.clear();
+        self.case_id += 1;
         s
     }
     fn gen_id(&mut self, s: &str) -> u64 {
@@ -479,6 +481,7 @@ struct Shards {
     check: &'static str,
     ty: &'static str,
     cur: Vec<String>,
+    prelude: Vec<String>,
     cur_bytes: usize,
     max_bytes: usize,
     max_cases: usize,
@@ -487,14 +490,18 @@ struct Shards {
 }
 impl Shards {
     fn new(dir: &str, leg: &'static str, check: &'static str, ty: &'static str, max_bytes: usize, max_cases: usize) -> Self {
-        Shards { dir: dir.into(), leg, check, ty, cur: vec![], cur_bytes: 0, max_bytes, max_cases, n_shards: 0, names: vec![] }
+        Shards { dir: dir.into(), leg, check, ty, cur: vec![], prelude: vec![], cur_bytes: 0, max_bytes, max_cases, n_shards: 0, names: vec![] }
     }
     fn push(&mut self, case: String, name: String) {
+        self.push_with_prelude(String::new(), case, name)
+    }
+    fn push_with_prelude(&mut self, prelude: String, case: String, name: String) {
         if !self.cur.is_empty() && (self.cur_bytes + case.len() > self.max_bytes || self.cur.len() >= self.max_cases) {
             self.flush();
         }
-        self.cur_bytes += case.len();
+        self.cur_bytes += case.len() + prelude.len();
         self.cur.push(case);
+        self.prelude.push(prelude);
         self.names.push(name);
     }
     fn flush(&mut self) {
@@ -504,6 +511,7 @@ impl Shards {
         let mut s = String::with_capacity(self.cur_bytes + 4096);
         s.push_str("From C12 Require Import Canon Maps Corr.\nLocal Open Scope N_scope.\n");
         for (i, c) in self.cur.iter().enumerate() {
+            s.push_str(&self.prelude[i]);
             writeln!(s, "Definition c{} : {} :=\n {}.", i, self.ty, c).unwrap();
         }
         let names: Vec<String> = (0..self.cur.len()).map(|i| format!("c{}", i)).collect();
@@ -514,6 +522,7 @@ impl Shards {
         fs::write(format!("{}.names", base), self.names.join("\n")).unwrap();
         self.n_shards += 1;
         self.cur.clear();
+        self.prelude.clear();
         self.names.clear();
         self.cur_bytes = 0;
     }
@@ -557,8 +566,8 @@ fn canon_leg(corpus: &str, out: &str, thorough: bool, rng: &mut Rng, oracle: &mu
     let mut pr = Printer::new(false);
     let mut dump = Printer::new(true);
     let mut seen = std::collections::BTreeSet::new();
-    // quick tier: every program up to 400 statements and a seeded choice of 4 larger ones
-    let quick_limit = 400usize;
+    // quick tier: every program up to 2500 statements and a seeded choice of 4 larger ones
+    let quick_limit = 2500usize;
     let mut large_budget = 4;
     for path in files {
         let name = path.file_stem().unwrap().to_string_lossy().to_string();
@@ -577,7 +586,7 @@ fn canon_leg(corpus: &str, out: &str, thorough: bool, rng: &mut Rng, oracle: &mu
         }
         // the program itself and one or two seeded mutants of its declaration lists
         let mut variants: Vec<(Program, String)> = vec![(p0.clone(), "orig".into())];
-        let n_mut = if thorough && p0.statements.len() <= 300 { 2 } else { 1 };
+        let n_mut = if thorough { 3 } else if p0.statements.len() <= 300 { 2 } else { 1 };
         for _ in 0..n_mut {
             let (m, kind) = mutate(&p0, rng);
             if kind != "none" {
@@ -674,13 +683,13 @@ fn canon_leg(corpus: &str, out: &str, thorough: bool, rng: &mut Rng, oracle: &mu
                 Ok(s) => s,
                 Err(m) => {
                     oracle.push(serde_json::json!({"leg": "canon", "case": case_name, "why": format!("unexpected panic of the canonical replacer: {m}")}));
-                    let _ = pr.close_case(String::new());
+                    let _ = pr.close_case();
                     continue;
                 }
             };
             let pick = rng.below(3) as usize;
             let (s, q) = &sigmas[pick];
-            let small = p.statements.len() <= if thorough { 80 } else { 40 };
+            let small = p.statements.len() <= if thorough { 200 } else { 80 };
             let qs = if small {
                 st.renamed_printed += 1;
                 format!("(Some {})", pr.program(q))
@@ -688,11 +697,18 @@ fn canon_leg(corpus: &str, out: &str, thorough: bool, rng: &mut Rng, oracle: &mu
                 "None".to_string()
             };
             let (ps, ts) = (pr.program(&p), s.tables(&mut pr));
-            let case = pr.close_case(format!("({},\n {},\n {},\n {})", ps, ts, er, qs));
+            let case = format!("({},\n {},\n {},\n {})", ps, ts, er, qs);
+            let prelude = pr.close_case();
             if samples.len() < 3 && p.statements.len() <= 6 {
-                samples.push(format!("canon case {}: {}", case_name, case.replace('\n', " ")));
+                samples.push(format!(
+                    "canon case {}: program {} renaming (types, libfuncs, functions) {} implementation's canonical result {}",
+                    case_name,
+                    dump.program(&p).replace('\n', " "),
+                    s.tables_plain(),
+                    e_dump.replace('\n', " ")
+                ));
             }
-            shards.push(case, case_name);
+            shards.push_with_prelude(prelude, case, case_name);
             st.cases += 1;
         }
     }
@@ -798,7 +814,7 @@ fn omap_leg(out: &str, thorough: bool, rng: &mut Rng, oracle: &mut Vec<serde_jso
     let mut shards = Shards::new(out, "omap", "check_omap", "omap_case", 400_000, 400);
     let mut stats = MapStats::default();
     let mut sstats = MapStats::default();
-    let n_cases = if thorough { 1500 } else { 300 };
+    let n_cases = if thorough { 3000 } else { 300 };
     let mut seen = std::collections::BTreeSet::new();
     for c in 0..n_cases {
         let set_like = c % 4 == 3;
@@ -877,6 +893,28 @@ fn omap_leg(out: &str, thorough: bool, rng: &mut Rng, oracle: &mut Vec<serde_jso
             }
             trace.push(got);
         }
+        // order-sensitive and order-insensitive comparison faces, set difference (impl-level only)
+        {
+            let mut perm = reference.clone();
+            for i in (1..perm.len()).rev() {
+                let j = rng.below(i as u64 + 1) as usize;
+                perm.swap(i, j);
+            }
+            if set_like {
+                let other: OrderedHashSet<u64> = perm.iter().map(|e| e.0).filter(|k| k % 2 == 0).collect();
+                let diff: Vec<u64> = (&set - &other).iter().cloned().collect();
+                let expect: Vec<u64> = reference.iter().map(|e| e.0).filter(|k| k % 2 != 0).collect();
+                if diff != expect {
+                    oracle.push(serde_json::json!({"leg": "oset", "case": c, "why": format!("set difference does not keep the order of the left operand: {:?} vs {:?}", diff, expect), "ops": format!("{:?}", ops)}));
+                }
+            } else {
+                let m2: OrderedHashMap<u64, u64> = perm.iter().cloned().collect();
+                let same_order = perm == reference;
+                if !m.eq_unordered(&m2) || (m == m2) != same_order {
+                    oracle.push(serde_json::json!({"leg": "omap", "case": c, "why": format!("eq_unordered={} / == is {} but the orders are {}", m.eq_unordered(&m2), m == m2, if same_order {"equal"} else {"different"}), "ops": format!("{:?}", ops)}));
+                }
+            }
+        }
         let case = format!(
             "([{}],\n  [{}])",
             ops.iter().map(coq_oop).collect::<Vec<_>>().join(";"),
@@ -929,7 +967,7 @@ fn observe(m: &UnorderedHashMap<u64, u64>, probes: &[u64]) -> Obs {
 fn umap_leg(out: &str, thorough: bool, rng: &mut Rng, oracle: &mut Vec<serde_json::Value>, samples: &mut Vec<String>) -> MapStats {
     let mut shards = Shards::new(out, "umap", "check_umap", "umap_case", 400_000, 400);
     let mut st = MapStats::default();
-    let n_cases = if thorough { 1200 } else { 250 };
+    let n_cases = if thorough { 2400 } else { 250 };
     let mut seen = std::collections::BTreeSet::new();
     for c in 0..n_cases {
         let len = 1 + rng.below(if c % 10 == 0 { 100 } else { 30 }) as usize;
